@@ -25,6 +25,7 @@ def run(ctx):
     ctx.each(informational, ctx, repo)
     ctx.each(r07e, ctx, repo)
     ctx.each(r07g, ctx, repo)
+    ctx.each(flowalg.share_rule, ctx, repo, "R07h")  # people placed in a junction by the databook are passed on in full by the initial flush
     ctx.each(flowalg.accumulator_rule, ctx, repo, "R07f", [("model", "Characteristic.update"), ("model", "Characteristic.vals")], 4, "the characteristic sums")
 
 
